@@ -97,30 +97,39 @@ Definition bi_next (ks : list bytes) (it : biter) : biter * bool :=
 (* ---------- table ---------- *)
 
 (* t_filter j = the filter registered under the offset of data block j, if the reader has
-   one; t_hasf = Reader.hasBloomFilter *)
-Record table := mkT { t_blocks : list block; t_hasf : bool; t_filter : nat -> option (bytes -> bool) }.
+   one; t_hasf = Reader.hasBloomFilter; t_bad j = FetchBlock fails for data block j (its
+   bytes do not pass block.NewReader: false for every block of a file as written) *)
+Record table := mkT { t_ikeys : list bytes;   (* keys of the index block: first key of every data block *)
+                      t_blocks : list block; t_hasf : bool; t_filter : nat -> option (bytes -> bool);
+                      t_bad : nat -> bool }.
 
 Definition bfirst (b : block) : bytes := match b with e :: _ => sk e | [] => [] end.
-Definition ikeys (tb : table) : list bytes := map bfirst (t_blocks tb).
+Definition ikeys (tb : table) : list bytes := t_ikeys tb.
 Definition bkeys (tb : table) (j : nat) : list bytes := map sk (nth j (t_blocks tb) []).
 
 (* what the writer produces; fh b = membership test of the filter built from the keys of b *)
 Definition write (fh : block -> bytes -> bool) (bloom : bool) (es : list sentry) : table :=
   let bs := cut es in
-  mkT bs (bloom && negb (match bs with [] => true | _ => false end))
-      (fun j => if bloom then option_map fh (nth_error bs j) else None).
+  mkT (map bfirst bs) bs (bloom && negb (match bs with [] => true | _ => false end))
+      (fun j => if bloom then option_map fh (nth_error bs j) else None)
+      (fun _ => false).
 
-(* sstable.Iterator: initialized, indexIterator, (block number of currentBlock, dataBlockIter) *)
-Record titer := mkTI { ti_init : bool; ti_ix : biter; ti_blk : option (nat * biter) }.
+(* sstable.Iterator: initialized, indexIterator, (block number of currentBlock, dataBlockIter),
+   err != nil *)
+Record titer := mkTI { ti_init : bool; ti_ix : biter; ti_blk : option (nat * biter); ti_err : bool }.
 
 (* Reader.NewIterator: the index iterator is positioned at the first index entry *)
-Definition ti_new (tb : table) : titer := mkTI false (bi_first (ikeys tb)) None.
+Definition ti_new (tb : table) : titer := mkTI false (bi_first (ikeys tb)) None false.
 
-(* loadCurrentDataBlock *)
-Definition ti_load (tb : table) (ix : biter) : option (nat * biter) :=
+(* loadCurrentDataBlock, called only when the index iterator is valid (all call sites check):
+   the loaded block, and whether it.err was set (FetchBlock failed) *)
+Definition ti_load (tb : table) (ix : biter) : option (nat * biter) * bool :=
   if bi_valid (ikeys tb) ix
-  then match bi_cur ix with Some j => Some (j, bi_fresh) | None => None end
-  else None.
+  then match bi_cur ix with
+       | Some j => if t_bad tb j then (None, true) else (Some (j, bi_fresh), false)
+       | None => (None, false)
+       end
+  else (None, false).
 
 Definition ti_valid (tb : table) (it : titer) : bool :=
   ti_init it &&
@@ -139,8 +148,8 @@ Definition ti_cur (tb : table) (it : titer) : option sentry :=
 Definition ti_seek_first (tb : table) : titer :=
   let ix := bi_first (ikeys tb) in
   match ti_load tb ix with
-  | Some (j, _) => mkTI true ix (Some (j, bi_first (bkeys tb j)))
-  | None => mkTI true ix None
+  | (Some (j, _), _) => mkTI true ix (Some (j, bi_first (bkeys tb j))) false
+  | (None, e) => mkTI true ix None e
   end.
 
 (* findNextUniqueBlock / the loop of seekInNextBlocks: advance the index iterator to the
@@ -154,31 +163,32 @@ Fixpoint ix_next_valid (tb : table) (fuel : nat) (ix : biter) : biter * bool :=
     else (ix', false)
   end.
 
-(* advanceToNextBlock *)
-Definition ti_advance (tb : table) (ix : biter) : titer * bool :=
+(* advanceToNextBlock; err0 = the error state before the call *)
+Definition ti_advance (tb : table) (ix : biter) (err0 : bool) : titer * bool :=
   let (ix', found) := ix_next_valid tb (S (length (ikeys tb))) ix in
   if found then
     match ti_load tb ix' with
-    | Some (j, _) => let b := bi_first (bkeys tb j) in
-                     (mkTI true ix' (Some (j, b)), bi_valid (bkeys tb j) b)
-    | None => (mkTI true ix' None, false)
+    | (Some (j, _), _) => let b := bi_first (bkeys tb j) in
+                          (mkTI true ix' (Some (j, b)) err0, bi_valid (bkeys tb j) b)
+    | (None, e) => (mkTI true ix' None (err0 || e), false)
     end
-  else (mkTI true ix' None, false).
+  else (mkTI true ix' None err0, false).
 
 (* seekInNextBlocks: like advance, but a block whose first entry is not valid is skipped *)
 Fixpoint ti_seek_next (tb : table) (fuel : nat) (ix : biter) : titer * bool :=
   match fuel with
-  | O => (mkTI true ix None, false)
+  | O => (mkTI true ix None false, false)
   | S f =>
     let (ix', ok) := bi_next (ikeys tb) ix in
     if ok then
       match ti_load tb ix' with
-      | Some (j, _) => let b := bi_first (bkeys tb j) in
-                       if bi_valid (bkeys tb j) b then (mkTI true ix' (Some (j, b)), true)
-                       else ti_seek_next tb f ix'
-      | None => ti_seek_next tb f ix'
+      | (Some (j, _), _) => let b := bi_first (bkeys tb j) in
+                            if bi_valid (bkeys tb j) b then (mkTI true ix' (Some (j, b)) false, true)
+                            else ti_seek_next tb f ix'
+      | (None, true) => (mkTI true ix' None true, false)   (* FetchBlock failed: return false *)
+      | (None, false) => ti_seek_next tb f ix'             (* invalid index entry: skipped *)
       end
-    else (mkTI true ix' None, false)
+    else (mkTI true ix' None false, false)
   end.
 
 (* Iterator.Next *)
@@ -187,14 +197,14 @@ Definition ti_next (tb : table) (it : titer) : titer * bool :=
   else match ti_blk it with
        | None =>
          match ti_load tb (ti_ix it) with
-         | Some (j, _) => let b := bi_first (bkeys tb j) in
-                          (mkTI true (ti_ix it) (Some (j, b)), bi_valid (bkeys tb j) b)
-         | None => (it, false)
+         | (Some (j, _), _) => let b := bi_first (bkeys tb j) in
+                               (mkTI true (ti_ix it) (Some (j, b)) (ti_err it), bi_valid (bkeys tb j) b)
+         | (None, e) => (mkTI true (ti_ix it) None (ti_err it || e), false)
          end
        | Some (j, b) =>
          let (b', ok) := bi_next (bkeys tb j) b in
-         if ok then (mkTI true (ti_ix it) (Some (j, b')), true)
-         else ti_advance tb (ti_ix it)
+         if ok then (mkTI true (ti_ix it) (Some (j, b')) (ti_err it), true)
+         else ti_advance tb (ti_ix it) (ti_err it)
        end.
 
 (* Iterator.Seek *)
@@ -202,11 +212,11 @@ Definition ti_seek (tb : table) (t : bytes) : titer * bool :=
   let ix0 := bi_seek_prev (ikeys tb) t in
   let ix := if bi_valid (ikeys tb) ix0 then ix0 else bi_first (ikeys tb) in
   match ti_load tb ix with
-  | None => (mkTI true ix None, false)
-  | Some (j, _) =>
+  | (None, e) => (mkTI true ix None e, false)
+  | (Some (j, _), _) =>
     let b := bi_seek (bkeys tb j) t in
     match bi_cur b with
-    | Some _ => (mkTI true ix (Some (j, b)), true)
+    | Some _ => (mkTI true ix (Some (j, b)) false, true)
     | None => ti_seek_next tb (S (length (ikeys tb))) ix
     end
   end.
@@ -219,14 +229,15 @@ Fixpoint valid_run (ks : list bytes) : nat :=
   end.
 Definition ti_seek_last (tb : table) : titer :=
   match valid_run (ikeys tb) with
-  | O => mkTI true (bi_first (ikeys tb)) None
+  | O => mkTI true (bi_first (ikeys tb)) None false
   | S j => let ix := mkBI true (Some j) in
-           mkTI true ix (Some (j, bi_last (bkeys tb j)))
+           if t_bad tb j then mkTI true ix None true
+           else mkTI true ix (Some (j, bi_last (bkeys tb j))) false
   end.
 
 (* ---------- Reader.Get ---------- *)
 
-Inductive gres := GNotFound | GTomb | GVal (v : bytes).
+Inductive gres := GNotFound | GTomb | GVal (v : bytes) | GErr.
 Definition gres_of (e : sentry) : gres := match sval e with Some v => GVal v | None => GTomb end.
 
 (* the backup linear scan of SearchBlockForKey: for SeekToFirst; Valid; Next *)
@@ -252,13 +263,16 @@ Definition t_get (tb : table) (k : bytes) : gres :=
     match bi_cur ix with
     | None => GNotFound
     | Some j =>
+      (* only a filter registered for the block that answers "no" skips the block *)
       let pass := if t_hasf tb
-                  then match t_filter tb j with Some f => f k | None => false end
+                  then match t_filter tb j with Some f => f k | None => true end
                   else true in
-      if pass then match search_block (nth j (t_blocks tb) []) k with
-                   | Some e => gres_of e
-                   | None => GNotFound
-                   end
+      if pass then
+        if t_bad tb j then GErr   (* FetchBlock fails *)
+        else match search_block (nth j (t_blocks tb) []) k with
+             | Some e => gres_of e
+             | None => GNotFound
+             end
       else GNotFound
     end
   else GNotFound.
